@@ -15,6 +15,8 @@ pub struct C18;
 
 pub const SEGS: &[&str] = &["a", "b", "sub", "d e", "ünï", ".hid", "f.txt", "x"];
 pub const SIZES: &[usize] = &[0, 1, 1023, 1024, 1025, 4096, 70000, 7];
+/// sizes at the edges of hash blocks (SHA-256: 64, padding edge 55/56; SHA-512: 128, 111/112) and of plausible read buffers
+pub const EDGE_SIZES: &[usize] = &[55, 56, 63, 64, 65, 111, 112, 119, 120, 127, 128, 129, 4095, 4097, 8191, 8192, 8193, 16383, 16384, 16385, 32767, 32768, 32769, 49152, 65535, 65536, 65537, 131072, 1 << 20];
 
 #[derive(Clone, Debug, Serialize, Deserialize, PartialEq, Eq)]
 pub enum Entry {
@@ -121,7 +123,7 @@ fn create_tree(root: &Path, tree: &[Entry], feat: &mut Features) {
         }
         match e {
             Entry::File { size, fill, .. } => {
-                let n = SIZES[*size as usize % SIZES.len()];
+                let n = if *size < 128 { SIZES[*size as usize % SIZES.len()] } else { EDGE_SIZES[(*size as usize - 128) % EDGE_SIZES.len()] };
                 let data: Vec<u8> = (0..n).map(|k| fill.wrapping_add((k % 251) as u8)).collect();
                 if std::fs::write(&p, data).is_ok() && n > 1024 {
                     feat.big_file = true;
@@ -436,7 +438,7 @@ impl Property for C18 {
         "C18"
     }
     fn rule() -> String {
-        "Generated: directory trees of depth <= 3 (files of 0,1,7,1023,1024,1025,4096,70000 bytes; names with spaces, Unicode, leading dots; \
+        "Generated: directory trees of depth <= 3 (files of 0,1,7,1023,1024,1025,4096,70000 bytes and, for half of the files, sizes at hash-block and read-buffer edges: 55,56,63..65,111,112,119,120,127..129, 4095,4097, 8191..8193, 16383..16385, 32767..32769, 49152, 65535..65537, 131072, 1 MiB; names with spaces, Unicode, leading dots; \
          empty directories; absolute and relative symlinks to files, directories, other symlinks and ancestor directories = cycles; never \
          dangling), path argument lists (root, '.', './t', sub-directories, single files, overlapping, non-normalised 't/./sub//'), \
          strip-prefix lists (none, matching, overlapping prefixes of different length, non-matching, empty), hash algorithms {default, \
